@@ -1631,6 +1631,34 @@ Print Assumptions loopir_minvar_psi_model.
 Print Assumptions loopir_minvar_psi_tie.
 """
 
+# ---------------------------------------------------------------- TOEPLITZ: translation + theorem (T5)
+TOEP_PROOF = 'Proofs/LoopIRToeplitz.v'
+TOEP_THEOREMS = ['loopir_TOEPLITZ_model', 'loopir_TOEPLITZ_tie']
+TOEP_BLOCK = """
+(* The program regenerated on this run is, term for term, the one Proofs/LoopIRToeplitz.v is about: its theorems apply. *)
+Require Import Spectrum.Theory.Ops Spectrum.Theory.Vec Spectrum.Model.Levinson Spectrum.Model.LoopIRTie Spectrum.Proofs.LoopIRToeplitz.
+Lemma prog_TOEPLITZ_is_ref : prog_TOEPLITZ = prog_TOEPLITZ_ref.
+Proof. reflexivity. Qed.
+Theorem loopir_TOEPLITZ_model :
+  forall (F : Type) (OF : Ops F) (L : Laws OF) (feq : F -> F -> bool) (stop : Z -> F -> F -> bool)
+         (t0 : F) (tC : bool) (TC : list F) (tR : bool) (TR : list F) (tZ : bool) (Zr : list F),
+  (TC = [] \\/ length TC <> length TR \\/ feq t0 0%F = true \\/ (length TC + 1 <= length Zr)%nat) ->
+  run feq stop prog_TOEPLITZ [Some (VF t0); Some (VArr tC TC); Some (VArr tR TR); Some (VArr tZ Zr)] =
+  if Nat.eqb (length TC) 0 || negb (Nat.eqb (length TC) (length TR)) then OErr AssertionError
+  else if feq t0 0%F then OErr ValueError
+  else match toeplitz t0 TC TR Zr with
+       | Some X => ORet [VArr false X]
+       | None => OErr ValueError
+       end.
+Proof. intros. rewrite prog_TOEPLITZ_is_ref. apply toeplitz_ir_run; assumption. Qed.
+Theorem loopir_TOEPLITZ_tie :
+  forall (F : Type) (OF : Ops F) (L : Laws OF) (feq : F -> F -> bool), (forall a, feq a a = true) ->
+  forall (t0 : F) (TC TR Zr : list F), (length TC + 1 <= length Zr)%nat -> tie_toeplitz feq prog_TOEPLITZ t0 TC TR Zr = true.
+Proof. intros. rewrite prog_TOEPLITZ_is_ref. apply toeplitz_ir_tie; assumption. Qed.
+Print Assumptions loopir_TOEPLITZ_model.
+Print Assumptions loopir_TOEPLITZ_tie.
+"""
+
 # routine -> the proof file its reference program text lives in, the theorems the generated file instantiates, the block that does it
 THEOREMS = {
     'LEVINSON': dict(proof=LEV_PROOF, theorems=LEV_THEOREMS, block=LEV_BLOCK),
@@ -1639,6 +1667,7 @@ THEOREMS = {
     'levdown': dict(proof=LEVDOWN_PROOF, theorems=LEVDOWN_THEOREMS, block=LEVDOWN_BLOCK),
     'HERMTOEP': dict(proof=HERM_PROOF, theorems=HERM_THEOREMS, block=HERM_BLOCK),
     'minvar_psi': dict(proof=MVPSI_PROOF, theorems=MVPSI_THEOREMS, block=MVPSI_BLOCK),
+    'TOEPLITZ': dict(proof=TOEP_PROOF, theorems=TOEP_THEOREMS, block=TOEP_BLOCK),
 }
 
 
